@@ -504,6 +504,8 @@ def run(tier):
         m = env.formula_manager
         d = S.Directed(env, rnd, tier)
         for sname, n, it, dflt, pairs, lit, chain, outside in d.sized_arrays():
+            if tier == "quick" and sname != "Int" and n not in (8, 9, 16, 17, 32, 33, 100):
+                continue
             a = m.Symbol("za_%s_%d" % (sname, n), ArrayType(it, INT))
             b = m.Symbol("zb_%s_%d" % (sname, n), ArrayType(it, INT))
             byid = sorted(pairs, key=lambda kv: id(kv[0]))
@@ -518,7 +520,14 @@ def run(tier):
                 one(env, m.Select(a, k), asg, True, ask_sat=False)
             one(env, m.Select(a, outside[0]), asg, True, ask_sat=False)
             if n:
-                one(env, m.And([m.Equals(m.Select(a, k), v) for k, v in pairs]), asg, True, ask_sat=True)
+                if n <= 33:
+                    one(env, m.And([m.Equals(m.Select(a, k), v) for k, v in pairs]), asg, True, ask_sat=True)
+                else:
+                    for k, v in rnd.sample(pairs, 4 if n <= 100 else 1):
+                        one(env, m.Equals(m.Select(a, k), v), asg, True, ask_sat=True)
+                if tier == "quick" and n > 100:
+                    one(env, m.Select(m.Store(a, byid[0][0], m.Int(7)), byid[-1][0]), asg, True, ask_sat=False)
+                    continue
                 one(env, m.Equals(m.Select(a, byid[-1][0]), byid[-1][1]), asg, False, ask_sat=True)
                 one(env, m.Select(m.Store(a, byid[0][0], m.Int(7)), byid[-1][0]), asg, True, ask_sat=False)
                 one(env, m.Select(m.Store(a, outside[0], m.Int(7)), byid[-1][0]), asg, True, ask_sat=False)
